@@ -28,4 +28,5 @@ package character
 //@   ensures forall(k, 0, len(result)-1, result[k].End <= result[k+1].Start)
 //@   loop 0: invariant 0 <= start && start <= end && end <= offset && offset <= len(input) && count == len(rv) && size >= 0 && offset + size <= len(input) && implies(currRune != utf8.RuneError, size >= 1)
 //@   loop 0: invariant forall(k, 0, len(rv), tokOf(input, rv[k]) && rv[k].Position == k+1) && forall(k, 0, len(rv)-1, rv[k].End <= rv[k+1].Start) && implies(len(rv) > 0, rv[len(rv)-1].End <= start)
+//@   loop 0: invariant fresh(rv)
 //@   loop 0: decreases len(input) - offset
